@@ -100,6 +100,14 @@ func (w *World) Observe(o ObsOpts) map[string]string {
 		} else {
 			obs["get:"+w.name(u)] = canonJSON(ob)
 		}
+		in2 := &Rec{O: 7777, S: "caller's", M: map[string][]*Sub{"caller's": nil}}
+		in2.Initialize(u)
+		w.call("Get", func() { ob, err = w.db.Get(in2) })
+		if err != nil {
+			obs["get-into-callers-object:"+w.name(u)] = "err:" + notFoundClass(err)
+		} else {
+			obs["get-into-callers-object:"+w.name(u)] = canonJSON(ob)
+		}
 		x := &Rec{}
 		x.Initialize(u)
 		var ok bool
